@@ -255,4 +255,47 @@ theorem pb_fold_cfg (es : Batch) (a : PB) (hok : ∀ e ∈ es, e.2 ≠ Payload.c
     unfold pbStep
     split <;> simp_all
 
+/-- `command_batch` never holds a Config entry (a Config entry flushes the batch it is pushed into). -/
+theorem pb_fold_batch_noconfig (es : Batch) (a : PB) (h : cfgOf a.batch = []) :
+    cfgOf (es.foldl pbStep a).batch = [] := by
+  induction es generalizing a with
+  | nil => exact h
+  | cons e es ih =>
+    rw [List.foldl_cons]
+    apply ih
+    unfold pbStep
+    split
+    · rename_i c hc
+      show cfgOf (a.batch ++ [e]) = []
+      rw [cfgOf_append, h]; simp [cfgOf, hc]
+    · rename_i hc
+      show cfgOf (a.batch ++ [e]) = []
+      rw [cfgOf_append, h]; simp [cfgOf, hc]
+    · rfl
+    · rfl
+    · exact h
+
+/-- Whatever `process_batch` leaves unsent (the tail dropped on its early `Err` return) contains no Config
+    entry: every Config entry of the fetched range is dispatched. -/
+theorem processEntries_rest_noconfig (es rest : Batch) (hne : ∀ e ∈ es, e.2 ≠ Payload.empty)
+    (h : es = (pbFinish (es.foldl pbStep {})).flatten ++ rest) : cfgOf rest = [] := by
+  have hf := pb_fold_flatten es {} hne
+  simp only [List.flatten_nil, List.nil_append] at hf
+  have hb := pb_fold_batch_noconfig es {} rfl
+  generalize es.foldl pbStep {} = a at hf hb h
+  unfold pbFinish at h
+  split at h
+  · rw [← hf] at h
+    have := List.append_cancel_left h
+    rw [← this]; exact hb
+  · split at h
+    · rw [← hf] at h
+      have := List.append_cancel_left h
+      rw [← this]; exact hb
+    · rw [← hf, List.flatten_append] at h
+      simp only [List.flatten_cons, List.flatten_nil, List.append_nil, List.append_assoc] at h
+      have h1 := List.append_cancel_left h
+      have : rest = [] := List.self_eq_append_right.mp h1
+      rw [this]; rfl
+
 end DEngine.Apply
